@@ -504,3 +504,214 @@ Proof.
   induction s as [|y s IH]; intros [|j] Hx; simpl in Hx; try contradiction.
   destruct Hx as [<-|Hx]; [left; reflexivity|right; apply (IH j Hx)].
 Qed.
+
+(* ---------------------------------------------------------------- lists of minima, fringe diagonals *)
+Lemma fold_min_le_init : forall l x, fold_right Z.min x l <= x.
+Proof. induction l; intros; simpl; lia. Qed.
+
+Lemma fold_min_le_in : forall l x y, In y l -> fold_right Z.min x l <= y.
+Proof. induction l; intros x y H; simpl in *; [contradiction|]. destruct H as [<-|H]; [lia|]. specialize (IHl x y H). lia. Qed.
+
+Lemma zmin_list_le : forall l x, In x l -> zmin_list l <= x.
+Proof.
+  intros [|y l] x H; [contradiction|]. cbn [zmin_list]. destruct H as [<-|H]; [apply fold_min_le_init|apply fold_min_le_in; exact H].
+Qed.
+
+Lemma fold_min_ge : forall l x b, b <= x -> (forall y, In y l -> b <= y) -> b <= fold_right Z.min x l.
+Proof. induction l; intros x b Hx H; simpl; [exact Hx|]. apply Z.min_glb; [apply H; left; reflexivity|apply IHl; [exact Hx|intros; apply H; right; assumption]]. Qed.
+
+Lemma zmin_list_ge : forall l b, l <> [] -> (forall y, In y l -> b <= y) -> b <= zmin_list l.
+Proof.
+  intros [|y l] b N H; [congruence|]. cbn [zmin_list]. apply fold_min_ge; [apply H; left; reflexivity|intros; apply H; right; assumption].
+Qed.
+
+Lemma in_diag : forall m n k r c, In (r, c) (diag m n k) <-> (r + c = k /\ r <= m /\ c <= n)%nat.
+Proof.
+  intros m n k r c. unfold diag. rewrite filter_In, in_map_iff. cbn [snd]. rewrite Nat.leb_le. split.
+  - intros [(r' & E & Hr) Hc]. injection E as -> <-. rewrite <- in_rev, in_seq in Hr. lia.
+  - intros (E & Hr & Hc). split; [|exact Hc]. exists r. split; [f_equal; lia|]. rewrite <- in_rev, in_seq. lia.
+Qed.
+
+Lemma diag_nonempty : forall m n k, (k <= m + n)%nat -> diag m n k <> [].
+Proof.
+  intros m n k H E.
+  assert (I : In (Nat.min k m, (k - Nat.min k m)%nat) (diag m n k)) by (apply in_diag; lia).
+  rewrite E in I. contradiction.
+Qed.
+
+(* ---------------------------------------------------------------- the cost matrix *)
+Lemma nth_nonneg : forall l i, Forall (fun x => 0 <= x) l -> 0 <= nth i l 0.
+Proof.
+  intros l i H. destruct (Nat.lt_ge_cases i (length l)) as [L|L].
+  - rewrite Forall_forall in H. apply H. apply nth_In. exact L.
+  - rewrite nth_overflow by exact L. lia.
+Qed.
+
+Lemma zsum_firstn_S : forall l i, (i < length l)%nat -> zsum (firstn (S i) l) = zsum (firstn i l) + nth i l 0.
+Proof. intros l i H. rewrite (firstn_S_nth l i 0 H), zsum_app. simpl. lia. Qed.
+
+Lemma rev_firstn_S : forall l i, (i < length l)%nat -> rev (firstn (S i) l) = nth i l 0 :: rev (firstn i l).
+Proof. intros l i H. rewrite (firstn_S_nth l i 0 H), rev_app_distr. reflexivity. Qed.
+
+Section Matrix.
+  Variables (rc ic : list Z) (mcs : list (list Z)).
+  Hypothesis Hd : dims_ok rc ic mcs.
+  Hypothesis Hrc : Forall (fun x => 0 <= x) rc.
+  Hypothesis Hic : Forall (fun x => 0 <= x) ic.
+  Hypothesis Hmc : Forall (Forall (fun x => 0 <= x)) mcs.
+
+  Let n := length rc.
+  Let m := length ic.
+  Definition cc (r c : nat) : Z := ccost (cell_at (matrix rc ic mcs) r c).
+  Definition mcv (r c : nat) : Z := nth c (nth r mcs []) 0.
+
+  Lemma mcv_nonneg : forall r c, 0 <= mcv r c.
+  Proof.
+    intros r c. unfold mcv. apply nth_nonneg.
+    destruct (Nat.lt_ge_cases r (length mcs)) as [L|L].
+    - rewrite Forall_forall in Hmc. apply Hmc. apply nth_In. exact L.
+    - rewrite nth_overflow by exact L. constructor.
+  Qed.
+
+  (* every cell is a predecessor's cost plus the cost of one edit *)
+  Lemma cell_step : forall r c, (r <= m)%nat -> (c <= n)%nat ->
+    (r = O /\ c = O /\ cc r c = 0) \/
+    (exists c', c = S c' /\ cc r c = cc r c' + nth c' rc 0) \/
+    (exists r', r = S r' /\ cc r c = cc r' c + nth r' ic 0) \/
+    (exists r' c', r = S r' /\ c = S c' /\ cc r c = cc r' c' + mcv r' c' /\
+                   mcv r' c' < nth r' ic 0 /\ mcv r' c' < nth c' rc 0).
+  Proof.
+    intros r c Hr Hc. unfold cc. destruct r as [|r], c as [|c].
+    - left. auto.
+    - right. left. exists c. split; [reflexivity|]. rewrite (cell_0S rc ic mcs c) by (fold n; lia). reflexivity.
+    - right. right. left. exists r. split; [reflexivity|]. rewrite (cell_S0 rc ic mcs Hd r) by (fold m; lia). reflexivity.
+    - rewrite (cell_SS rc ic mcs Hd r c) by (fold m n; lia).
+      destruct (best_cases (cell_at (matrix rc ic mcs) r c) (cell_at (matrix rc ic mcs) (S r) c)
+                           (cell_at (matrix rc ic mcs) r (S c)) (nth c (nth r mcs []) 0) (nth r ic 0) (nth c rc 0))
+        as [(_ & Cq & L1 & L2)|[(_ & Cq)|(_ & Cq)]]; rewrite Cq.
+      + right. right. right. exists r, c. unfold mcv. auto.
+      + right. right. left. exists r. auto.
+      + right. left. exists c. auto.
+  Qed.
+
+  (* upper bound: removing and inserting everything *)
+  Lemma cc_upper : forall s r c, (r + c = s)%nat -> (r <= m)%nat -> (c <= n)%nat ->
+    cc r c <= zsum (firstn c rc) + zsum (firstn r ic).
+  Proof.
+    induction s as [s IH] using lt_wf_ind. intros r c Hs Hr Hc.
+    destruct (cell_step r c Hr Hc) as [(-> & -> & E)|[(c' & -> & E)|[(r' & -> & E)|(r' & c' & -> & -> & E & L1 & L2)]]].
+    - rewrite E. simpl. lia.
+    - rewrite E, zsum_firstn_S by (fold n; lia). specialize (IH (r + c')%nat ltac:(lia) r c' eq_refl Hr ltac:(lia)). lia.
+    - rewrite E, (zsum_firstn_S ic) by (fold m; lia). specialize (IH (r' + c)%nat ltac:(lia) r' c eq_refl ltac:(lia) Hc). lia.
+    - rewrite E, zsum_firstn_S by (fold n; lia). rewrite (zsum_firstn_S ic) by (fold m; lia).
+      specialize (IH (r' + c')%nat ltac:(lia) r' c' eq_refl ltac:(lia) ltac:(lia)).
+      pose proof (nth_nonneg rc c' Hrc). lia.
+  Qed.
+
+  (* a diagonal step is strictly below that bound *)
+  Lemma cc_nonneg : forall s r c, (r + c = s)%nat -> (r <= m)%nat -> (c <= n)%nat -> 0 <= cc r c.
+  Proof.
+    induction s as [s IH] using lt_wf_ind. intros r c Hs Hr Hc.
+    destruct (cell_step r c Hr Hc) as [(-> & -> & E)|[(c' & -> & E)|[(r' & -> & E)|(r' & c' & -> & -> & E & L1 & L2)]]].
+    - lia.
+    - specialize (IH (r + c')%nat ltac:(lia) r c' eq_refl Hr ltac:(lia)). pose proof (nth_nonneg rc c' Hrc). lia.
+    - specialize (IH (r' + c)%nat ltac:(lia) r' c eq_refl ltac:(lia) Hc). pose proof (nth_nonneg ic r' Hic). lia.
+    - specialize (IH (r' + c')%nat ltac:(lia) r' c' eq_refl ltac:(lia) ltac:(lia)). pose proof (mcv_nonneg r' c'). lia.
+  Qed.
+
+  (* lower bound: at least |c - r| elements of the longer prefix are removed (inserted), each at its own cost *)
+  Definition lbc (r c : nat) : Z :=
+    if (r <=? c)%nat then sum_smallest (c - r) (rev (firstn c rc)) else sum_smallest (r - c) (rev (firstn r ic)).
+
+  Lemma Forall_rev_firstn : forall l i, Forall (fun x => 0 <= x) l -> Forall (fun x => 0 <= x) (rev (firstn i l)).
+  Proof.
+    intros l i H. rewrite Forall_forall in *. intros x Hx. apply H. rewrite <- in_rev in Hx.
+    revert i Hx. induction l as [|y l IHl]; intros [|i] Hx; simpl in Hx; try contradiction.
+    destruct Hx as [<-|Hx]; [left; reflexivity|right; apply (IHl i Hx)].
+  Qed.
+
+  Lemma rev_firstn_length : forall (l : list Z) i, (i <= length l)%nat -> length (rev (firstn i l)) = i.
+  Proof. intros l i H. rewrite rev_length, firstn_length. lia. Qed.
+
+  Lemma cc_lower : forall s r c, (r + c = s)%nat -> (r <= m)%nat -> (c <= n)%nat -> lbc r c <= cc r c.
+  Proof.
+    induction s as [s IH] using lt_wf_ind. intros r c Hs Hr Hc.
+    destruct (cell_step r c Hr Hc) as [(-> & -> & E)|[(c' & -> & E)|[(r' & -> & E)|(r' & c' & -> & -> & E & L1 & L2)]]].
+    - rewrite E. unfold lbc. simpl. lia.
+    - rewrite E. specialize (IH (r + c')%nat ltac:(lia) r c' eq_refl Hr ltac:(lia)).
+      pose proof (nth_nonneg rc c' Hrc) as P. unfold lbc in *.
+      destruct (Nat.leb_spec r (S c')), (Nat.leb_spec r c'); try lia.
+      + rewrite rev_firstn_S by (fold n; lia). replace (S c' - r)%nat with (S (c' - r)) by lia.
+        pose proof (ss_cons_S (nth c' rc 0) (rev (firstn c' rc)) (c' - r)). lia.
+      + assert (r = S c') by lia. subst r. replace (S c' - S c')%nat with O by lia.
+        unfold sum_smallest at 1. simpl.
+        pose proof (ss_nonneg (rev (firstn (S c') ic)) (S c' - c') (Forall_rev_firstn ic _ Hic)). lia.
+      + pose proof (ss_S_nonneg (rev (firstn r ic)) (r - S c') (Forall_rev_firstn ic _ Hic)) as Q.
+        replace (S (r - S c')) with (r - c')%nat in Q by lia. lia.
+    - rewrite E. specialize (IH (r' + c)%nat ltac:(lia) r' c eq_refl ltac:(lia) Hc).
+      pose proof (nth_nonneg ic r' Hic) as P. unfold lbc in *.
+      destruct (Nat.leb_spec (S r') c), (Nat.leb_spec r' c); try lia.
+      + pose proof (ss_S_nonneg (rev (firstn c rc)) (c - S r') (Forall_rev_firstn rc _ Hrc)) as Q.
+        replace (S (c - S r')) with (c - r')%nat in Q by lia. lia.
+      + assert (c = r') by lia. subst c. rewrite rev_firstn_S by (fold m; lia).
+        replace (S r' - r')%nat with 1%nat by lia. replace (r' - r')%nat with O in IH by lia.
+        pose proof (ss_cons_S (nth r' ic 0) (rev (firstn r' ic)) 0) as Q. unfold sum_smallest at 2 in Q. simpl in Q. lia.
+      + rewrite rev_firstn_S by (fold m; lia). replace (S r' - c)%nat with (S (r' - c)) by lia.
+        pose proof (ss_cons_S (nth r' ic 0) (rev (firstn r' ic)) (r' - c)). lia.
+    - rewrite E. specialize (IH (r' + c')%nat ltac:(lia) r' c' eq_refl ltac:(lia) ltac:(lia)).
+      pose proof (mcv_nonneg r' c') as P. unfold lbc in *. cbn [Nat.leb]. replace (S c' - S r')%nat with (c' - r')%nat by lia.
+      replace (S r' - S c')%nat with (r' - c')%nat by lia.
+      destruct (Nat.leb_spec r' c').
+      + rewrite rev_firstn_S by (fold n; lia).
+        pose proof (ss_cons_le (nth c' rc 0) (rev (firstn c' rc)) (c' - r')
+                               ltac:(rewrite rev_firstn_length by (fold n; lia); lia)). lia.
+      + rewrite rev_firstn_S by (fold m; lia).
+        pose proof (ss_cons_le (nth r' ic 0) (rev (firstn r' ic)) (r' - c')
+                               ltac:(rewrite rev_firstn_length by (fold m; lia); lia)). lia.
+  Qed.
+
+  (* every cell but (0,0) has a predecessor on one of the two previous diagonals that costs no more *)
+  Lemma cc_pred : forall r c, (r <= m)%nat -> (c <= n)%nat -> (1 <= r + c)%nat ->
+    exists r' c', (r' <= m)%nat /\ (c' <= n)%nat /\ (r' + c' < r + c)%nat /\ (r + c <= r' + c' + 2)%nat /\ cc r' c' <= cc r c.
+  Proof.
+    intros r c Hr Hc H1.
+    destruct (cell_step r c Hr Hc) as [(-> & -> & E)|[(c' & -> & E)|[(r' & -> & E)|(r' & c' & -> & -> & E & L1 & L2)]]].
+    - lia.
+    - exists r, c'. pose proof (nth_nonneg rc c' Hrc). repeat split; lia.
+    - exists r', c. pose proof (nth_nonneg ic r' Hic). repeat split; lia.
+    - exists r', c'. pose proof (mcv_nonneg r' c'). repeat split; lia.
+  Qed.
+
+  (* minimum over a fringe diagonal / over the fringe and the previous one *)
+  Definition gmin (k : nat) : Z := zmin_list (map (fun p => cc (fst p) (snd p)) (diag m n k)).
+  Definition hmin (j : nat) : Z := Z.min (gmin j) (gmin (j - 1)).
+
+  Lemma gmin_le : forall r c, (r <= m)%nat -> (c <= n)%nat -> gmin (r + c) <= cc r c.
+  Proof.
+    intros r c Hr Hc. unfold gmin. apply zmin_list_le.
+    apply (in_map (fun p => cc (fst p) (snd p)) _ (r, c)). apply in_diag. lia.
+  Qed.
+
+  (* the fringe bound: every cell on the fringe diagonals or beyond costs at least the fringe minimum *)
+  Lemma fringe_min_le : forall j s r c, (r + c = s)%nat -> (r <= m)%nat -> (c <= n)%nat -> (j <= s + 1)%nat ->
+    hmin j <= cc r c.
+  Proof.
+    intros j. induction s as [s IH] using lt_wf_ind. intros r c Hs Hr Hc Hj. unfold hmin.
+    destruct (Nat.eq_dec s j) as [E|N1]; [subst j; rewrite <- Hs; pose proof (gmin_le r c Hr Hc); lia|].
+    destruct (Nat.eq_dec s (j - 1)) as [E|N2].
+    { rewrite <- E, <- Hs. pose proof (gmin_le r c Hr Hc). lia. }
+    destruct (cc_pred r c Hr Hc ltac:(lia)) as (r' & c' & Hr' & Hc' & L1 & L2 & Le).
+    specialize (IH (r' + c')%nat ltac:(lia) r' c' eq_refl Hr' Hc' ltac:(lia)). unfold hmin in IH. lia.
+  Qed.
+
+  (* it is non-decreasing along the diagonals *)
+  Lemma hmin_mono : forall j, (1 <= j)%nat -> (S j <= m + n)%nat -> hmin j <= hmin (S j).
+  Proof.
+    intros j H1 H2. unfold hmin at 2. replace (S j - 1)%nat with j by lia. apply Z.min_glb.
+    - unfold gmin. apply zmin_list_ge.
+      + intros E. apply map_eq_nil in E. revert E. apply diag_nonempty. fold m n. lia.
+      + intros y Hy. apply in_map_iff in Hy. destruct Hy as ([r c] & <- & Hi). apply in_diag in Hi. cbn [fst snd].
+        apply (fringe_min_le j (r + c) r c eq_refl); lia.
+    - unfold hmin. lia.
+  Qed.
+End Matrix.
